@@ -198,6 +198,11 @@ var c09IsoProgs = []string{
 	"(base64:encode (to-bytes \"ab\"))",
 	"(regexp:regexp-match? (regexp:regexp-compile \"a+\") \"caab\")",
 	"(help:doc 'car)",
+	// values of the standard library that end up INSIDE a macro expansion (the call-site stamping walks the expansion)
+	"(defmacro mk () (s:gt k)) (set 'v (mk)) (s:validate (s:make-validator \"t\" s:int v) 5)",
+	"(defmacro mk2 () (list 'quote (list (s:make-validator \"t\" s:int) (sorted-map \"a\" k) (vector k) car))) (mk2)",
+	"(defmacro mk3 () (quasiquote (list (unquote (s:in 1 2)) (unquote (lambda (x) x))))) (mk3)",
+	"(defmacro mk4 () (time:parse-rfc3339 \"2024-01-02T03:04:05Z\")) (time:format-rfc3339 (mk4))",
 }
 
 // Separate runtimes share no mutable state: evaluation (including runtime construction and
